@@ -301,7 +301,7 @@ Lemma c14_model_holds_partial : forall c,
   holds c14_checker c (model c14_checker c) = true.
 Proof.
   intros c Hwf Hk. cbn [holds model c14_checker]. unfold c14_holds. rewrite Hwf. cbn [andb].
-  destruct c as [t x|ids shape d t|op ra rb|t0 data0 steps]; try contradiction.
+  destruct c as [t x|ids shape d t|op ra rb|t0 data0 act0 steps]; try contradiction.
   - destruct x; try contradiction; cbn [c14_model xform_attrs xform_spec]; cbn [c14_wf] in Hwf.
     + rewrite (split_attrs_spec _ _ Hwf). apply V_eqb_refl.
     + rewrite (swap_attrs_spec _ _ Hwf). apply V_eqb_refl.
